@@ -142,6 +142,15 @@ reg('C17', 'grid', 'exploration',
     'Finite spaces enumerated completely; the pass-through clause uses the generated language of C07 (structure exhaustive, fills by covering scheme).',
     'bounded exhaustive enumeration of the configuration cross product', 'DESIGN.md 2.5, 3/C17')
 
+reg('C19', 'hist', 'model_checking',
+    'Call-history exploration over the two validation caches: the alphabet is every (schema x validator x expect_failure) and (sample document x own schema / metaschema x '
+    'expect_failure) call (142 calls); reference outcome of each call = that single call in a fresh interpreter process (cwd=/repo and cwd=/, sockets stubbed to detect '
+    'network use). From a restored pristine state all length-1 histories, ordered pairs (quick: those sharing a schema or document; thorough: all 20 164), all triples over '
+    'calls sharing a cache key and saturated histories (19/20/21 distinct keys before and around every probe, incl. the expect_failure twin) are executed on the real '
+    'functions; every call outcome must equal its fresh outcome. Bundled valid samples must validate and invalid ones must not.',
+    'Restoring captured athlib module state is taken as equivalent to a fresh process (checked on all length-1 histories); histories longer than 3 only in the saturated families.',
+    'explicit enumeration of call histories on the real code against fresh-process reference outcomes', 'DESIGN.md 2.4, 3/C19')
+
 ALL = ['C%02d' % i for i in range(1, 20)]
 PENDING_REASON = 'check not yet built in this session (planned, see DESIGN.md section 7); not claimed until it runs clean'
 
